@@ -104,6 +104,9 @@ pxgstrf_scheduler(const int_t pnum, const int_t n, const int_t *etree,
 #ifdef PROFILE
     TIC(t);
 #endif
+#ifdef SLU_MT_VERIF
+    SLU_MT_VERIF_EVENT(SLUV_SCHED_ENTER, pnum, *cur_pan, 0, 0, pxgstrf_shared);
+#endif
 #if ( MACH==SUN )
     mutex_lock( &pxgstrf_shared->lu_locks[SCHED_LOCK] );
 #elif ( MACH==DEC || MACH==PTHREAD )
@@ -194,6 +197,9 @@ pxgstrf_scheduler(const int_t pnum, const int_t n, const int_t *etree,
      * Update the status of the new panel "jcol" and its parent "dad".
      */
     if ( jcol != EMPTY ) {
+#ifdef SLU_MT_VERIF
+	SLU_MT_VERIF_EVENT(SLUV_SCHED_PICK, pnum, jcol, STATE( jcol ), pxgstrf_shared->tasks_remain, pxgstrf_shared);
+#endif
 	    --pxgstrf_shared->tasks_remain;
 #ifdef DOMAINS
 	if ( in_domain[jcol] == TREE_DOMAIN ) {
@@ -238,6 +244,9 @@ pxgstrf_scheduler(const int_t pnum, const int_t n, const int_t *etree,
     } /* if jcol != empty */
 
     *cur_pan = jcol;
+#ifdef SLU_MT_VERIF
+    SLU_MT_VERIF_EVENT(SLUV_SCHED_TAKE, pnum, jcol, (jcol != EMPTY ? *bcol : EMPTY), pxgstrf_shared->tasks_remain, pxgstrf_shared);
+#endif
 
 #if ( DEBUGlevel>=1 )
     printf("(%d) Exit C.S. tasks_remain %d, cur_pan %d\n", 
@@ -257,6 +266,9 @@ pxgstrf_scheduler(const int_t pnum, const int_t n, const int_t *etree,
 
 #ifdef PROFILE
     Gstat->procstat[pnum].cs_time += SuperLU_timer_() - t;
+#endif
+#ifdef SLU_MT_VERIF
+    SLU_MT_VERIF_EVENT(SLUV_SCHED_EXIT, pnum, *cur_pan, *bcol, 0, pxgstrf_shared);
 #endif
 
     return;
